@@ -65,10 +65,11 @@ static inline bool is_system_message(const char *topic) {
 static int tell_if(void *data, const char *key, void *value) {
     m_mod_t *mod = (m_mod_t *)value;
     ps_priv_t *msg = (ps_priv_t *)data;
-    ev_src_t *sub = msg->msg.topic ? (ev_src_t *)key : NULL;                 // key is indeed a subscription when we are publishing (check tell_subscribers()) !!
+    const bool direct = key == NULL;                                         // direct tell (tell_pubsub_msg()): no key; it may still carry a topic (poisonpill)
+    ev_src_t *sub = (msg->msg.topic && !direct) ? (ev_src_t *)key : NULL;    // key is indeed a subscription when we are publishing (check tell_subscribers()) !!
 
     if (mod->state & (M_MOD_RUNNING | M_MOD_PAUSED) &&                       // mod is running or paused
-        (!msg->msg.topic || sub)) {                                          // it is a publish and mod is subscribed on topic, or it is a broadcast/direct tell message
+        (direct || !msg->msg.topic || sub)) {                                // it is a direct tell, a broadcast, or a publish and mod is subscribed on topic
 
         M_DEBUG("Telling a message to '%s'\n", mod->name);
         ps_priv_t *m = alloc_ps_msg(msg, sub);
